@@ -555,29 +555,35 @@ func (v *parser_) parseIntrinsic() (
 	token TokenLike,
 	ok bool,
 ) {
+	var err error
 	_, token, ok = v.parseToken(BooleanToken, "")
 	if ok {
-		intrinsic, _ = stc.ParseBool(token.GetValue())
+		intrinsic, err = stc.ParseBool(token.GetValue())
+		v.checkLiteral(token, err)
 		return intrinsic, token, true
 	}
 	_, token, ok = v.parseToken(ComplexToken, "")
 	if ok {
-		intrinsic, _ = stc.ParseComplex(token.GetValue(), 128)
+		intrinsic, err = stc.ParseComplex(token.GetValue(), 128)
+		v.checkLiteral(token, err)
 		return intrinsic, token, true
 	}
 	_, token, ok = v.parseToken(FloatToken, "")
 	if ok {
-		intrinsic, _ = stc.ParseFloat(token.GetValue(), 64)
+		intrinsic, err = stc.ParseFloat(token.GetValue(), 64)
+		v.checkLiteral(token, err)
 		return intrinsic, token, true
 	}
 	_, token, ok = v.parseToken(HexadecimalToken, "")
 	if ok {
-		intrinsic, _ = stc.ParseUint(token.GetValue()[2:], 16, 64)
+		intrinsic, err = stc.ParseUint(token.GetValue()[2:], 16, 64)
+		v.checkLiteral(token, err)
 		return intrinsic, token, true
 	}
 	_, token, ok = v.parseToken(IntegerToken, "")
 	if ok {
-		intrinsic, _ = stc.ParseInt(token.GetValue(), 10, 64)
+		intrinsic, err = stc.ParseInt(token.GetValue(), 10, 64)
+		v.checkLiteral(token, err)
 		return intrinsic, token, true
 	}
 	_, token, ok = v.parseToken(NilToken, "")
@@ -588,19 +594,33 @@ func (v *parser_) parseIntrinsic() (
 	_, token, ok = v.parseToken(RuneToken, "")
 	if ok {
 		var matches = Scanner().MatchToken(RuneToken, token.GetValue())
-		var match, _ = stc.Unquote(matches.GetValue(1))
+		var match string
+		match, err = stc.Unquote(matches.GetValue(1))
+		v.checkLiteral(token, err)
 		intrinsic, _ = utf.DecodeRuneInString(match)
 		return intrinsic, token, true
 	}
 	_, token, ok = v.parseToken(StringToken, "")
 	if ok {
 		var matches = Scanner().MatchToken(StringToken, token.GetValue())
-		intrinsic, _ = stc.Unquote(matches.GetValue(1))
+		intrinsic, err = stc.Unquote(matches.GetValue(1))
+		v.checkLiteral(token, err)
 		return intrinsic, token, true
 	}
 
 	// NOTE: ok may be true or false.
 	return intrinsic, token, ok
+}
+
+// This private instance method rejects a literal that cannot be represented
+// exactly (an out-of-range number, an ill-formed escape) instead of letting a
+// different value stand in for it.
+func (v *parser_) checkLiteral(token TokenLike, err error) {
+	if err != nil {
+		var message = v.formatError(token)
+		message += "The literal cannot be represented: " + err.Error() + "\n"
+		panic(message)
+	}
 }
 
 func (v *parser_) parseItems() (
